@@ -340,6 +340,20 @@ def run(world, rep, tier, only=None):
                         lower = True        # rec_len < K: too small to be an entry
                     if (T.vars_in(big) & sv) and (T.field_names(small) & {"blocksize"} or T.vars_in(small) & {"blocksize"}):
                         upper = True        # offset + rec_len > blocksize
+            # the loop goes round only while a whole entry header (8 bytes) still lies inside the block
+            cond = (fn.blocks[hb].get("t") or {}).get("c")
+            a0 = T.strip(cond) if isinstance(cond, dict) else None
+            room = False
+            if isinstance(a0, dict) and a0.get("k") == "b" and a0.get("o") in ("<", "<=", ">", ">="):
+                l_, r_, o_ = a0["l"], a0["r"], a0["o"]
+                if o_ in (">", ">="):
+                    l_, r_, o_ = r_, l_, {">": "<", ">=": "<="}[o_]
+                fl_, fr_ = linear_form(l_, fn), linear_form(r_, fn)
+                if fl_ is not None and fr_ is not None:
+                    slack = fl_.get(1, 0) - fr_.get(1, 0)      # offset + slack  <(=)  blocksize
+                    room = (o_ == "<=" and slack >= 8) or (o_ == "<" and slack >= 7)
+            rep.ob("C06.f", site(fn, "directory walk stops when no entry header fits any more"), room,
+                   "loop condition `%s`: an 8-byte header at the cursor lies inside the block" % T.pp(cond or {})[:40])
             rep.ob("C06.f", site(fn, "directory walk validates rec_len before it strides by it"), lower and upper,
                    "`%s` (line %d): a test rejects a rec_len too small for an entry: %s; one that runs past the block: %s" %
                    (n.text()[:30], n.line, lower, upper))
@@ -451,6 +465,150 @@ def run(world, rep, tier, only=None):
                        leaves or unknown, "`%s` (line %d): with %s == 0 a test on it leads out of the loop: %s%s" %
                        (xn.text()[:40], xn.line, r, leaves, " (a test on it could not be evaluated)" if unknown and not leaves else ""))
     rep.floor("C06.h loops advanced by a transfer count", n_h, 2)
+
+    # ------------------------------------------------------------------ C06.i a table's end marker is not one of its entries
+    # Name tables end in a null entry for the loops that search them.  Where such a table is indexed directly with a
+    # value that comes from outside (s_creator_os, a hash or checksum type, ...), the range test in front has to stop
+    # short of the marker: `index < number of elements` lets the null through to strlen()/strcmp().
+    n_tab = 0
+    seen_i = set()
+    for pn in ("dumpe2fs", "debugfs", "tune2fs", "e2fsck", "mke2fs"):
+        prog = world.program(pn, plain=True)
+        for fn in prog.functions():
+            if fn.key in seen_i:
+                continue
+            seen_i.add(fn.key)
+            for n in fn.nodes():
+                if not n.ev:
+                    continue
+                exprs = [n.ev.get(k_) for k_ in ("x", "lhs", "rhs") if isinstance(n.ev.get(k_), dict)]
+                for e in exprs:
+                    for x in T.walk(e):
+                        if not (isinstance(x, dict) and x.get("k") == "x"):
+                            continue
+                        base, idx = T.strip(x.get("b") or x.get("a") or {}), T.strip(x.get("i") or {})
+                        if not (isinstance(base, dict) and base.get("k") == "v" and base.get("s") == "g" and isinstance(idx, dict)
+                                and idx.get("k") == "v" and idx.get("s") in ("p", "l")):
+                            continue
+                        gl = world.globals_named(base["n"], prog)
+                        init = gl[0].get("init") if gl else None
+                        if not (isinstance(init, dict) and init.get("k") == "arr" and init.get("e")):
+                            continue
+                        last = init["e"][-1]
+                        if not (isinstance(last, dict) and last.get("k") == "i" and last.get("c") == 0 and
+                                any(isinstance(y, dict) and y.get("k") == "s" for y in init["e"][:-1])):
+                            continue
+                        nel = len(init["e"])
+                        # the largest index the dominating comparisons with constants admit
+                        hi = None
+                        for t, a_ in control_lits(fn, n):
+                            a0 = T.strip(a_)
+                            if t is None or not (isinstance(a0, dict) and a0.get("k") == "b" and a0.get("o") in ("<", "<=", ">", ">=")):
+                                continue
+                            l_, r_, o_ = a0["l"], a0["r"], a0["o"]
+                            if T.path(r_) == idx["n"]:
+                                l_, r_, o_ = r_, l_, {"<": ">", "<=": ">=", ">": "<", ">=": "<="}[o_]
+                            c_ = T.const(r_)
+                            if T.path(l_) != idx["n"] or c_ is None:
+                                continue
+                            if not t:
+                                o_ = {"<": ">=", "<=": ">", ">": "<=", ">=": "<"}[o_]
+                            if o_ == "<":
+                                hi = c_ - 1 if hi is None else min(hi, c_ - 1)
+                            elif o_ == "<=":
+                                hi = c_ if hi is None else min(hi, c_)
+                        if hi is None:
+                            continue        # bounded some other way (a loop over the table, a mask): not this rule's shape
+                        n_tab += 1
+                        rep.ob("C06.i", site(fn, "index into %s stops short of its end marker" % base["n"]), hi <= nel - 2,
+                               "`%s[%s]` (line %d): the tests in front admit indices up to %d; the table has %d entries and a null marker at %d" %
+                               (base["n"], idx["n"], n.line, hi, nel - 1, nel - 1))
+    rep.floor("C06.i range-tested direct indices into null-terminated tables", n_tab, 1)
+
+    # ------------------------------------------------------------------ C06.j debugfs: a function that allows for "no file system open" does so throughout
+    # Several debugfs commands work without an open file system (logdump -f, dx_hash, ...).  A function that tests the
+    # global current_fs for null somewhere holds the belief that it may be null; every dereference of current_fs in
+    # that function then lies behind such a test (Engler's contradiction rule, frozen to this one global).
+    n_j = 0
+    dprog = world.program("debugfs", plain=True)
+    for fn in dprog.functions():
+        if not fn.file.startswith("debugfs/"):
+            continue
+        tests = [b for b in fn.blocks if fn.literal(b) and T.path(fn.literal(b)[0]) == "current_fs"]
+        if not tests:
+            continue
+        for n in fn.nodes():
+            if not n.ev:
+                continue
+            der = False
+            for key in ("x", "lhs", "rhs"):
+                e = n.ev.get(key)
+                if isinstance(e, dict):
+                    for x in T.walk(e):
+                        if isinstance(x, dict) and x.get("k") == "m":
+                            b_ = T.strip(x.get("b") or x.get("e") or {})
+                            if isinstance(b_, dict) and b_.get("k") == "v" and b_.get("n") == "current_fs":
+                                der = True
+            lit = fn.literal(n.bid) if n is fn.block_end(n.bid) else None
+            if lit and not der:
+                for x in T.walk(lit[0]):
+                    if isinstance(x, dict) and x.get("k") == "m":
+                        b_ = T.strip(x.get("b") or x.get("e") or {})
+                        if isinstance(b_, dict) and b_.get("k") == "v" and b_.get("n") == "current_fs":
+                            der = True
+            if not der:
+                continue
+            n_j += 1
+            ok = any(t is True and T.path(a_) == "current_fs" for t, a_ in control_lits(fn, n)) or \
+                fn.dominated_by(n, calls_to(fn, "check_fs_open", "common_args_process", "common_inode_args_process",
+                                            "common_block_args_process"))
+            # `current_fs && current_fs->x` and `current_fs ? current_fs->x : y`: the test is part of the same expression
+            if not ok:
+                txt = n.text() or ""
+                ok = "current_fs &&" in txt or "current_fs ?" in txt
+            rep.ob("C06.j", site(fn, "current_fs dereferenced only behind a test@%d" % (n.line - fn.raw.get("line", 0))), ok,
+                   "`%s` (line %d): %s tests current_fs for null elsewhere, so it may be null here too" % ((n.text() or "")[:40], n.line, fn.name))
+    rep.floor("C06.j dereferences of current_fs in functions that test it", n_j, 3)
+
+    # ------------------------------------------------------------------ C06.k a buffer for inline data is as large as the inline area
+    # ext2fs_inline_data_get() copies the whole inline area (60 bytes of i_block plus the system.data value), whatever
+    # i_size says.  A caller that allocates the buffer itself sizes it from ext2fs_inline_data_size() or by whole
+    # blocks - not from i_size, which the disk sets independently.
+    n_k6 = 0
+    seen_k = set()
+    for pn in ("debugfs", "e2fsck", "mke2fs"):
+        prog = world.program(pn, plain=True)
+        for fn in prog.functions():
+            if fn.key in seen_k:
+                continue
+            seen_k.add(fn.key)
+            for c in calls_to(fn, "ext2fs_inline_data_get"):
+                bv = T.path(arg(c, 3))
+                if bv is None:
+                    continue
+                allocs = [a_ for a_ in calls_to(fn, "ext2fs_get_mem", "ext2fs_get_memzero", "malloc", "calloc", "ext2fs_get_array", "ext2fs_get_arrayzero")
+                          if any(bv == T.path(T.strip(x).get("e") if isinstance(T.strip(x), dict) and T.strip(x).get("k") == "u" else x)
+                                 for x in a_.ev["x"].get("a", []))] + \
+                    [st for st in fn.events("S") if T.path(st.ev["lhs"]) == bv and
+                     any(cc.get("fn") in ("malloc", "calloc") for cc in T.calls(st.ev.get("rhs") or {}))]
+                for a_ in allocs:
+                    if not fn.dominated_by(c, [a_]):
+                        continue
+                    n_k6 += 1
+                    sz = (a_.ev["x"].get("a", [None])[0] if a_.ev["e"] == "C" else
+                          (T.calls(a_.ev.get("rhs"))[0].get("a", [None])[0]))
+                    outs = set()
+                    for q in calls_to(fn, "ext2fs_inline_data_size"):
+                        o_ = T.strip(arg(q, 2))
+                        if isinstance(o_, dict) and o_.get("k") == "u":
+                            outs.add(T.path(o_.get("e")))
+                    by_area = isinstance(sz, dict) and (depends_on(fn, sz, lambda y: T.path(y) in outs) or
+                                                         depends_on(fn, sz, lambda y: "blocksize" in T.field_names(y) or T.path(y) == "blocksize"))
+                    by_isize = isinstance(sz, dict) and depends_on(fn, sz, lambda y: bool({"i_size", "i_size_high"} & T.field_names(y)))
+                    rep.ob("C06.k", site(fn, "buffer for ext2fs_inline_data_get holds the whole inline area#%d" % n_k6), by_area and not by_isize,
+                           "`%s` (line %d): size from ext2fs_inline_data_size()/the block size: %s; from i_size: %s" %
+                           (a_.text()[:40], a_.line, by_area, by_isize))
+    rep.floor("C06.k caller-allocated buffers handed to ext2fs_inline_data_get", n_k6, 1)
 
     # C06.b cursor lifetime in the rbtree bitmap — shared with C16.b
     try:
